@@ -399,6 +399,9 @@ func TestVerif_C02(t *testing.T) {
 			m.id = fmt.Sprintf("%08x", 0xa0000000+si*256+mi)
 			m.hdr = []byte(fmt.Sprintf("Subject: message %d of %s\r\nX-Verif: %d\r\n\r\n", mi, sc.name, mi))
 			m.body = []byte(fmt.Sprintf("body of %s\r\n", m.id))
+			if (si+mi)%4 == 3 {
+				m.body = []byte{} // a message that is its header only: an empty body file is a complete one
+			}
 			tgt.mu.Lock()
 			tgt.msgs[m.id] = m
 			tgt.mu.Unlock()
